@@ -183,6 +183,47 @@ def obligation(item):
                         res['mismatch'].append({'text': text, 'literal': s, 'pos': p})
                 else:
                     res['unknown'] += 1
+    # (1b) matchers of the live parser that textX derived from the literals in some other form (e.g. several
+    # keywords merged into one expression): none of them may match exactly a keyword-like literal of the
+    # grammar where a word character follows.  Matchers of the grammar's own regex literals and of the base
+    # types are exempt (they are not keywords).
+    own_regexes = set(x[1] for _, _, body in g['rules'] for x in gram.subexprs(body) if x[0] == 're')
+    own_regexes |= set(gram.BASE_RE.values())
+    handled = set(id(m) for s_ in lits for m in mK.get(s_, []))
+    derived = [m for ms in mK.values() for m in ms
+               if id(m) not in handled and isinstance(m, RegExMatch) and m.to_match_regex not in own_regexes
+               and getattr(m, 'rule_name', '') not in gram.BASETYPES and not getattr(m, 'root', False)]
+    for m in derived:
+        for s_ in lits:
+            if not s_ or not KW.fullmatch(s_) or any(ch not in CHR2CODE for ch in s_):
+                continue
+            for p in range(0, n - len(s_)):
+                try:
+                    outk = spk.match1(m, p)
+                except Unsupported:
+                    break
+                here = [inp.inset(p + i, FOLDSET[CHR2CODE[ch]] if ic else frozenset([CHR2CODE[ch]]), record=False)
+                        for i, ch in enumerate(s_)]
+                c = Or(*[And(cond, inp.inset(end, WORD, record=False), *here) for (end, k), cond in outk.items()
+                         if end == p + len(s_) and end < n])
+                if c is False:
+                    continue
+                res['obligations'] += 1
+                r = z.check(c)
+                if r == 'unsat':
+                    res['discharged'] += 1
+                elif r == 'sat':
+                    text = inp.decode(z.model())
+                    ok = replay_literal(m, s_, text, p, True)
+                    res['validated'] += 1
+                    if ok:
+                        res['violations'].append({'grammar': g['name'], 'kind': 'literal', 'literal': s_, 'text': text,
+                                                  'pos': p, 'detail': 'keyword %r is matched at %d by the derived '
+                                                  'expression %r although a word character follows' % (s_, p, m.to_match_regex)})
+                    else:
+                        res['mismatch'].append({'text': text, 'literal': s_, 'pos': p})
+                else:
+                    res['unknown'] += 1
     # (3) whole inputs
     res['twin'] = z.check(ak)
     glue = glue_term(inp, lits, ic)
@@ -335,7 +376,14 @@ def replay(data):
             return (not modelcmp.same(a, b)), modelcmp.first_diff(a, b)
         return False, (k1, k2)
     mk = pegcheck.build_mm(g, autokwd=True, **cfg)
-    for m in matchers(mk).get(data['literal'], []):
+    ms = matchers(mk)
+    cand = ms.get(data['literal'], []) + ([m for v in ms.values() for m in v if isinstance(m, RegExMatch)]
+                                          if 'derived' in data.get('detail', '') else [])
+    if data.get('ignore_case'):
+        pass
+    for m in cand:
+        if 'derived' in data.get('detail', '') and repr(m.to_match_regex) not in data['detail']:
+            continue
         if replay_literal(m, data['literal'], data['text'], data['pos'], bool(KW.fullmatch(data['literal']))):
             return True, data['detail']
     return False, 'does not reproduce'
